@@ -339,6 +339,7 @@ func (w *World) poisonRelayCallee() {
 	}
 	w.tasks(fs...)
 	w.QuiesceStarted = true
+	w.stopLags()
 	w.settle(35 * time.Second) // every ttl and the relay's tombstone period
 	spy.checkEnded()
 	w.checkQuiescent()
